@@ -604,6 +604,17 @@ func compareStyle(inner *ssa.Function, stale *ssa.Parameter) string {
 		if identity {
 			continue
 		}
+		// a deleting return on the `!oldLoaded` edge deletes what does not exist: the identity as well
+		if b, isC := core.ConstBool(core.RetVal(ret, 1)); isC && b {
+			if _, absent := core.GuardedBy(ret, func(cond ssa.Value) core.CondMatch {
+				if cond == ssa.Value(oldLoaded) {
+					return core.CondMatch{Match: true, Branch: false}
+				}
+				return core.CondMatch{}
+			}); absent {
+				continue
+			}
+		}
 		_, ok := core.GuardedBy(ret, func(cond ssa.Value) core.CondMatch {
 			c, isCmp := core.AsCmp(cond)
 			if !isCmp {
@@ -673,13 +684,30 @@ func checkExpiryPredicateAs(e *Env, rule string) {
 			}
 			done = true
 			oldV, oldLoaded := inner.Params[0], inner.Params[1]
-			q := &core.PathQuery{Fn: inner,
+			// a result assigned to a variable in the branches and returned once: follow the variable along the path
+			var track []ssa.Value
+			for _, ret := range core.ReturnsOf(inner) {
+				if ld, isLd := core.RetVal(ret, 0).(*ssa.UnOp); isLd && ld.Op == token.MUL {
+					track = append(track, ld.X)
+				}
+			}
+			var q, q2 *core.PathQuery
+			retOnPath := func(pq *core.PathQuery, ret *ssa.Return) ssa.Value {
+				v := core.RetVal(ret, 0)
+				if ld, isLd := v.(*ssa.UnOp); isLd && ld.Op == token.MUL {
+					if tv := pq.Tracked(ld.X); tv != nil {
+						return core.Resolve(tv)
+					}
+				}
+				return v
+			}
+			q = &core.PathQuery{Fn: inner, Track: track,
 				Target: func(in ssa.Instruction) bool {
 					ret, ok := in.(*ssa.Return)
 					if !ok {
 						return false
 					}
-					if core.RetVal(ret, 0) != ssa.Value(oldV) {
+					if retOnPath(q, ret) != ssa.Value(oldV) {
 						return true
 					}
 					b, isC := core.ConstBool(core.RetVal(ret, 1))
@@ -702,13 +730,13 @@ func checkExpiryPredicateAs(e *Env, rule string) {
 			e.R.Check(w == nil, rule, "pkg/cache.Cache.LoadOrStore:keeps-live-entry", e.pos(c.(ssa.Instruction)),
 				"with the key present and not expired every return of the callback is (oldValue, false)", "a present, non-expired entry can be replaced or deleted: "+e.trace(w))
 			// … and with the key present but EXPIRED the new element replaces it (the slot is fresh again)
-			q2 := &core.PathQuery{Fn: inner,
+			q2 = &core.PathQuery{Fn: inner, Track: track,
 				Target: func(in ssa.Instruction) bool {
 					ret, ok := in.(*ssa.Return)
 					if !ok {
 						return false
 					}
-					return core.RetVal(ret, 0) == ssa.Value(oldV) // keeps the expired element
+					return retOnPath(q2, ret) == ssa.Value(oldV) // keeps the expired element
 				},
 				EdgeOK: core.ForcedEdges(func(i *ssa.If) int {
 					cond, neg := core.StripNot(i.Cond)
